@@ -34,6 +34,11 @@ SCRIPTS = {
                     "vnacal_new_build_equation_terms.c", "vnacal_new_parameter.c", "vnacal_parameter.c",
                     "vnacal_layout.c", "vnacal_error.c", "vnacal_calibration.c", "vnacal_rfi.c", "vnacal_type_to_name.c",
                     "vnacommon_mrdivide.c", "vnacommon_lu.c"], 0, 18),
+    "vnacal_new_unknown": ("h_script_vnacal_new", ["-DS_VNACAL_NEW", "-DS_UNKNOWN", "-DVERIF_CUT_rfi_after_search=__CPROVER_assume(0)"],
+                   ["vnacal_create.c", "vnacal_free.c", "vnacal_new.c", "vnacal_new_add_common.c",
+                    "vnacal_new_build_equation_terms.c", "vnacal_new_parameter.c", "vnacal_parameter.c",
+                    "vnacal_layout.c", "vnacal_error.c", "vnacal_calibration.c", "vnacal_rfi.c", "vnacal_type_to_name.c",
+                    "vnacommon_mrdivide.c", "vnacommon_lu.c", "vnacal_make_unknown_parameter.c", "vnacal_delete_parameter.c"], 0, 18),
     "vnacal_new_m_error": ("h_script_vnacal_new", ["-DS_VNACAL_NEW", "-DS_M_ERROR", "-DVERIF_CUT_rfi_after_search=__CPROVER_assume(0)"],
                    ["vnacal_create.c", "vnacal_free.c", "vnacal_new.c", "vnacal_new_add_common.c",
                     "vnacal_new_build_equation_terms.c", "vnacal_new_parameter.c", "vnacal_parameter.c",
